@@ -9,6 +9,16 @@
 //	xscript caller programs (TRY/CATCH/FINALLY around loading another script,
 //	       repeated) x callee programs (statics, nested calls, THROW/RET, a
 //	       third script), loaded by a harness SYSCALL handler (xscript_test.go);
+//	xfer   every offset-carrying opcode (JMP*, CALL*, PUSHA, TRY*: both offsets,
+//	       ENDTRY*) x every way of making the transfer live x every target byte
+//	       offset (before 0 .. past the end, inside every kind of operand) x every
+//	       position among the filler instructions, on scripts padded to a multiple
+//	       of 64 bytes; pointers handed across scripts (xfer_test.go);
+//	gasedge programs around SYSCALLs whose handler charges through AddDatoshi /
+//	       AddPicoGas, under four price configurations (none, all-zero, 1.0001, 30
+//	       datoshi per unit) and the limits 0, 1, 3, need-1, need (gasedge_test.go);
+//	trunc  every opcode with an operand cut off by the end of the script at every
+//	       byte (trunc_test.go);
 //	deep   all sequences up to length L (5 quick, 6 thorough) over an alphabet
 //	       of 76 macro instructions that type-check against the observed
 //	       machine state (breadth first, merged by canonical machine state
@@ -278,7 +288,7 @@ func (s *stats) fullCheckT(part, name string, macros []string, script []byte, tm
 	_, _ = base, budget
 	l := &w.loc
 	bounds, decoded := boundaries(script)
-	correct := scparser.IsScriptCorrect(script, nil) == nil
+	correct := s.staticOK(part, name, script, opts.tbl)
 	if !correct && part == "deep" {
 		l.deepNotStatic++
 	}
@@ -307,7 +317,11 @@ func (s *stats) fullCheckT(part, name string, macros []string, script []byte, tm
 		limits[0], nl = 0, 1
 	case r0.State == "HALT" || r0.State == "FAULT":
 		need = (r0.OwnPico + picoPerDat - 1) / picoPerDat
-		if light {
+		if light && opts.lowLimits {
+			limits = [5]int64{0, 1, need - 1, need}
+			nl = 4
+			sort.Slice(limits[:nl], func(i, j int) bool { return limits[i] < limits[j] })
+		} else if light {
 			limits[0], limits[1], nl = need-1, need, 2
 		} else {
 			limits = [5]int64{0, 1, 3, need - 1, need}
@@ -331,7 +345,7 @@ func (s *stats) fullCheckT(part, name string, macros []string, script []byte, tm
 			c.Gas = lim
 			rs = exec(script, c, opts)
 			l.note(&rs)
-			if rs.State == "BUDGET" && rs.F == nil {
+			if rs.State == "BUDGET" && rs.F == nil && (c.Base > 0 || opts.charges) { // without priced instructions nothing bounds a loop
 				rs.F = &finding{Kind: "no-termination-under-finite-gas", Site: "at-end", Step: rs.Steps, Msg: fmt.Sprintf("%d instructions executed under a limit of %d datoshi", rs.Steps, lim)}
 			}
 			s.report(part, name, macros, script, c, correct, &rs, opts.tbl)
@@ -366,12 +380,35 @@ func (s *stats) fullCheckT(part, name string, macros []string, script []byte, tm
 	return r0
 }
 
+// staticCheck calls IsScriptCorrect and recovers a Go panic (its contract: "it
+// returns nil, but it can return some specific error").
+func staticCheck(script []byte, methods bitfield.Field) (err error, pan any) {
+	defer func() {
+		if r := recover(); r != nil {
+			pan = r
+		}
+	}()
+	return scparser.IsScriptCorrect(script, methods), nil
+}
+
+// staticOK: did the script pass the static check; a panic of the check is reported.
+func (s *stats) staticOK(part, name string, script []byte, tbl []loaded) bool {
+	err, pan := staticCheck(script, nil)
+	if pan != nil {
+		res := result{State: "STATIC", F: &finding{Kind: "static-check-panics", Site: "IsScriptCorrect", IP: -1, Msg: fmt.Sprint(pan)}}
+		s.report(part, name, nil, script, cfg{}, false, &res, tbl)
+		return false
+	}
+	return err == nil
+}
+
 // methodsCheck: IsScriptCorrect with a method offset accepts the script only if
 // that offset is an instruction boundary by the harness's own decoding (entry
 // points are where execution starts, so this is the static half of "never
-// executes an offset that is not a boundary").
-func (s *stats) methodsCheck(w *walker, script []byte) {
-	if len(script) == 0 || scparser.IsScriptCorrect(script, nil) != nil {
+// executes an offset that is not a boundary"). Every offset alone, together
+// with offset 0, and together with all real boundaries.
+func (s *stats) methodsCheck(w *walker, part, name string, script []byte) {
+	if len(script) == 0 || !s.staticOK(part, name, script, nil) {
 		return
 	}
 	bounds, ok := boundaries(script)
@@ -379,16 +416,35 @@ func (s *stats) methodsCheck(w *walker, script []byte) {
 		return
 	}
 	for k := range script {
-		m := bitfield.New(len(script))
-		m.Set(k)
-		accepted := scparser.IsScriptCorrect(script, m) == nil
-		w.loc.methodOffsets++
-		if accepted && !bounds[k] {
-			res := result{State: "STATIC", F: &finding{Kind: "static-check-accepts-method-offset-inside-an-instruction", Site: "IsScriptCorrect", IP: k,
-				Msg: fmt.Sprintf("method offset %d accepted, but it is not an instruction boundary", k)}}
-			s.report("raw", "", nil, script, cfg{}, true, &res, nil)
-		} else if !accepted && bounds[k] {
-			w.loc.notes++ // stricter than needed: not a property violation
+		for set := 0; set < 3; set++ {
+			if set > 0 && len(script) <= 3 {
+				break
+			}
+			m := bitfield.New(len(script))
+			m.Set(k)
+			switch set {
+			case 1:
+				m.Set(0)
+			case 2:
+				for i := range script {
+					if bounds[i] {
+						m.Set(i)
+					}
+				}
+			}
+			err, pan := staticCheck(script, m)
+			accepted := err == nil && pan == nil
+			w.loc.methodOffsets++
+			if pan != nil {
+				res := result{State: "STATIC", F: &finding{Kind: "static-check-panics", Site: "IsScriptCorrect-methods", IP: k, Msg: fmt.Sprint(pan)}}
+				s.report(part, name, nil, script, cfg{}, true, &res, nil)
+			} else if accepted && !bounds[k] {
+				res := result{State: "STATIC", F: &finding{Kind: "static-check-accepts-method-offset-inside-an-instruction", Site: "IsScriptCorrect", IP: k,
+					Msg: fmt.Sprintf("method offset %d accepted (method set kind %d), but it is not an instruction boundary", k, set)}}
+				s.report(part, name, nil, script, cfg{}, true, &res, nil)
+			} else if !accepted && bounds[k] {
+				w.loc.notes++ // stricter than needed: not a property violation
+			}
 		}
 	}
 }
@@ -401,7 +457,7 @@ func rawPart(s *stats, from, to int) (scripts int64) {
 	one := func(w *walker, script []byte) {
 		r0 := s.fullCheck("raw", "", nil, script, rawBase, budget, w, execOpts{mark: -1}, false)
 		n.Inc()
-		s.methodsCheck(w, script)
+		s.methodsCheck(w, "raw", "", script)
 		if len(script) <= 1 || r0.MaxWalk >= limItems || r0.MaxInvoc >= limInvoc {
 			s.r.Sample(map[string]any{"part": "raw", "script": hex.EncodeToString(script), "unlimited": r0.State, "steps": r0.Steps, "gas": r0.Gas, "max_walk": r0.MaxWalk, "max_invocations": r0.MaxInvoc})
 		}
@@ -480,6 +536,18 @@ func TestCheck(t *testing.T) {
 	tX := time.Since(t0).Seconds()
 
 	t0 = time.Now()
+	xf := xferPart(s)
+	tXfer := time.Since(t0).Seconds()
+
+	t0 = time.Now()
+	ge := gasedgePart(s)
+	tGas := time.Since(t0).Seconds()
+
+	t0 = time.Now()
+	nTrunc, truncDecodable := truncPart(s)
+	tTrunc := time.Since(t0).Seconds()
+
+	t0 = time.Now()
 	nMatrix := opmatrixPart(s)
 	tMatrix := time.Since(t0).Seconds()
 
@@ -501,6 +569,8 @@ func TestCheck(t *testing.T) {
 		tRaw += time.Since(t0).Seconds()
 	}
 	fmt.Printf("C12 %s: xscript %d callers x %d callees (+specials) = %d programs %.1fs | opmatrix %d programs %.1fs\n", r.Tier, xo.callers, xo.callees, xo.programs, tX, nMatrix, tMatrix)
+	fmt.Printf("C12 %s: xfer %d variants x %d layouts = %d programs (%d accepted by the static check, %d of them with a target inside an instruction, %d distinct outcomes) + xptr %d programs %.1fs | gasedge %d programs %.1fs | trunc %d programs (%d complete) %.1fs\n",
+		r.Tier, xf.variants, xf.layouts/xf.variants, xf.programs, xf.accepted, xf.acceptedBad, xf.outcomes, xf.xptrPrograms, tXfer, ge.programs, tGas, nTrunc, truncDecodable, tTrunc)
 	fmt.Printf("C12 %s: limits %d programs %.1fs | raw len<=%d %d scripts %.1fs | deep L=%d levels=%v states=%d programs=%d %.1fs | core L=%d levels=%v states=%d programs=%d %.1fs | execs=%d steps=%d\n",
 		r.Tier, nLimit, tLimits, rawLen, nRaw, tRaw, depth, d.levelSizes, d.states, d.programs, tDeep, coreDepth, dc.levelSizes, dc.states, dc.programs, tCore, s.tot.execs, s.tot.steps)
 
@@ -529,59 +599,82 @@ func TestCheck(t *testing.T) {
 	inputsPerClass := s.flush()
 	outcomes := s.outcomeMap()
 	r.Finish(map[string]any{
-		"failing_inputs_per_class":       inputsPerClass,
-		"optional_deepening":             extra,
-		"states":                         d.states + dc.states + len(s.tot.sigs),
-		"transitions":                    int(s.tot.steps),
-		"traces_validated_against_impl":  int(s.tot.execs),
-		"rule":                           "states = distinct canonical machine states of the deep passes (stacks, slots, compound graph with sharing, try/call brackets, hidden counters) + distinct run signatures elsewhere; transitions = VM instructions executed with the full oracle after each; traces = executions on the real VM",
-		"distinct_outcomes":              len(outcomes),
-		"outcomes":                       outcomes,
-		"raw_max_length":                 rawLen,
-		"raw_scripts":                    int(nRaw),
-		"raw_gas_limits":                 "unlimited, 0, 1, 3, need-1, need (datoshi; base price 1.0001 datoshi per unit), each stepped and with Run(); scripts faulting on their first instruction: unlimited and 0 only",
-		"xscript_callers":                xo.callers,
-		"xscript_callees":                xo.callees,
-		"xscript_programs":               xo.programs,
-		"xscript_scripts_failing_static": int(xo.notStatic),
-		"xscript_wall_s":                 tX,
-		"limit_programs":                 nLimit,
-		"limit_programs_missing_target":  limitMiss,
-		"deep_depth":                     depth,
-		"deep_alphabet":                  len(macros),
-		"deep_level_sizes_after_merge":   d.levelSizes,
-		"deep_candidates_per_level":      d.levelCands,
-		"deep_programs_executed":         d.programs,
-		"deep_programs_not_halting":      d.faulted + dc.faulted,
-		"deep_mark_missed":               d.markMissed + dc.markMissed,
-		"deep_programs_failing_static":   int(s.tot.deepNotStatic),
-		"deep_states_with_sharing":       d.shared,
-		"deep_states_after_cycle":        d.cyclic,
-		"deep_states_in_call":            d.inCall,
-		"deep_states_in_try":             d.inTry,
-		"deep_witness_sequences":         d.witness,
-		"core_depth":                     coreDepth,
-		"core_alphabet":                  coreAlphabet,
-		"core_level_sizes_after_merge":   dc.levelSizes,
-		"core_candidates_per_level":      dc.levelCands,
-		"core_programs_executed":         dc.programs,
-		"core_states_with_sharing":       dc.shared,
-		"core_states_after_cycle":        dc.cyclic,
-		"core_states_in_call":            dc.inCall,
-		"core_states_in_try":             dc.inTry,
-		"scripts_passing_static_check":   int(s.tot.correct),
-		"runs_with_cycle":                int(s.tot.cyclic),
-		"runs_vm_counter_above_walk":     int(s.tot.over),
-		"run_vs_step_differences":        int(s.tot.runStepDiff),
-		"own_decoder_vs_static_check":    int(s.tot.decoderDiff),
-		"api_consistency_notes":          int(s.tot.notes),
-		"max_reachable_items_seen":       s.tot.maxWalk,
-		"max_invocation_depth_seen":      s.tot.maxInvoc,
-		"max_try_depth_seen":             s.tot.maxTry,
-		"wall_limits_raw_deep_core_s":    []float64{tLimits, tRaw, tDeep, tCore},
+		"failing_inputs_per_class":            inputsPerClass,
+		"optional_deepening":                  extra,
+		"states":                              d.states + dc.states + len(s.tot.sigs),
+		"transitions":                         int(s.tot.steps),
+		"traces_validated_against_impl":       int(s.tot.execs),
+		"rule":                                "states = distinct canonical machine states of the deep passes (stacks, slots, compound graph with sharing, try/call brackets, hidden counters) + distinct run signatures elsewhere; transitions = VM instructions executed with the full oracle after each; traces = executions on the real VM",
+		"distinct_outcomes":                   len(outcomes),
+		"outcomes":                            outcomes,
+		"raw_max_length":                      rawLen,
+		"raw_scripts":                         int(nRaw),
+		"raw_gas_limits":                      "unlimited, 0, 1, 3, need-1, need (datoshi; base price 1.0001 datoshi per unit), each stepped and with Run(); scripts faulting on their first instruction: unlimited and 0 only",
+		"xscript_callers":                     xo.callers,
+		"xscript_callees":                     xo.callees,
+		"xscript_programs":                    xo.programs,
+		"xscript_scripts_failing_static":      int(xo.notStatic),
+		"xscript_wall_s":                      tX,
+		"xfer_offset_opcodes":                 len(offsetOps),
+		"xfer_other_immediate_opcodes_probed": xf.probedOps,
+		"xfer_probe_runs":                     xf.probeRuns,
+		"xfer_variants":                       xf.variants,
+		"xfer_layouts":                        xf.layouts,
+		"xfer_programs":                       xf.programs,
+		"xfer_programs_by_target_class":       xf.byClass,
+		"xfer_accepted_by_static_check":       xf.accepted,
+		"xfer_accepted_with_target_inside_an_instruction": xf.acceptedBad,
+		"xfer_distinct_outcomes":                          xf.outcomes,
+		"xfer_method_offset_scripts":                      xf.methodScripts,
+		"xptr_programs":                                   xf.xptrPrograms,
+		"xfer_wall_s":                                     tXfer,
+		"gasedge_programs":                                ge.programs,
+		"gasedge_price_configurations":                    ge.configs,
+		"gasedge_unlimited_halt_fault":                    []int64{ge.halts, ge.faults},
+		"gasedge_wall_s":                                  tGas,
+		"trunc_programs":                                  nTrunc,
+		"trunc_programs_decodable":                        int(truncDecodable),
+		"trunc_wall_s":                                    tTrunc,
+		"method_offset_checks":                            int(s.tot.methodOffsets),
+		"limit_programs":                                  nLimit,
+		"limit_programs_missing_target":                   limitMiss,
+		"deep_depth":                                      depth,
+		"deep_alphabet":                                   len(macros),
+		"deep_level_sizes_after_merge":                    d.levelSizes,
+		"deep_candidates_per_level":                       d.levelCands,
+		"deep_programs_executed":                          d.programs,
+		"deep_programs_not_halting":                       d.faulted + dc.faulted,
+		"deep_mark_missed":                                d.markMissed + dc.markMissed,
+		"deep_programs_failing_static":                    int(s.tot.deepNotStatic),
+		"deep_states_with_sharing":                        d.shared,
+		"deep_states_after_cycle":                         d.cyclic,
+		"deep_states_in_call":                             d.inCall,
+		"deep_states_in_try":                              d.inTry,
+		"deep_witness_sequences":                          d.witness,
+		"core_depth":                                      coreDepth,
+		"core_alphabet":                                   coreAlphabet,
+		"core_level_sizes_after_merge":                    dc.levelSizes,
+		"core_candidates_per_level":                       dc.levelCands,
+		"core_programs_executed":                          dc.programs,
+		"core_states_with_sharing":                        dc.shared,
+		"core_states_after_cycle":                         dc.cyclic,
+		"core_states_in_call":                             dc.inCall,
+		"core_states_in_try":                              dc.inTry,
+		"scripts_passing_static_check":                    int(s.tot.correct),
+		"runs_with_cycle":                                 int(s.tot.cyclic),
+		"runs_vm_counter_above_walk":                      int(s.tot.over),
+		"run_vs_step_differences":                         int(s.tot.runStepDiff),
+		"own_decoder_vs_static_check":                     int(s.tot.decoderDiff),
+		"api_consistency_notes":                           int(s.tot.notes),
+		"max_reachable_items_seen":                        s.tot.maxWalk,
+		"max_invocation_depth_seen":                       s.tot.maxInvoc,
+		"max_try_depth_seen":                              s.tot.maxTry,
+		"wall_limits_raw_deep_core_s":                     []float64{tLimits, tRaw, tDeep, tCore},
 	}, []string{
 		"raw, limits and deep parts: one script per VM, loaded with vm.Load, no syscall handler and no CALLT tokens (SYSCALL/CALLT fault)",
 		"xscript part: other scripts are loaded by a harness SYSCALL handler that mimics the contract-call interop (pops the arguments, LoadScriptWithHash or LoadScriptWithFlags, pushes the arguments onto the new stack); callee scripts come from a fixed family, nesting is at most caller -> callee -> third script",
+		"xfer/xptr/gasedge parts: the harness's SYSCALL handler; ids with top byte 0xC2 only charge gas (AddDatoshi, AddPicoGas); without a price getter (or with the all-zero one) a loop that charges nothing is not bounded by any gas limit, so termination under a finite limit is asserted only where every instruction has a positive price or every loop iteration charges a positive amount",
+		"xfer: the offset-carrying opcodes are those of the harness's own table (xfer_offset_opcodes); every other opcode with an immediate operand is probed on the VM under test and the check stops with an error if one of them moves the instruction pointer, opens a try block or pushes a pointer",
 		"unlimited gas (limit -1) may legitimately not terminate; such runs stop at the instruction budget and are then re-run under finite limits only",
 		"BREAK cannot occur: the harness sets no breakpoints; any state other than NONE/HALT/FAULT after a step is reported",
 		"the exactness assertion (VM counter == walk) is switched off for the rest of a run once an APPEND/SETITEM inserts an item from which the container is reachable",
@@ -604,7 +697,17 @@ func replay(r *vk.Run, s *stats) {
 		r.Finish(map[string]any{"states": 1, "transitions": 1, "traces_validated_against_impl": 0}, nil)
 	}
 	bounds, decoded := boundaries(script)
-	correct := scparser.IsScriptCorrect(script, nil) == nil
+	serr, span := staticCheck(script, nil)
+	correct := serr == nil && span == nil
+	if c.Finding != nil && strings.HasPrefix(c.Finding.Kind, "static-") { // a finding about the static check itself: nothing is executed
+		w := newWalker()
+		for i := 0; i < 5; i++ {
+			s.methodsCheck(w, c.Part, c.Name, script) // reports a panic of the plain check too
+		}
+		more := s.flush()
+		fmt.Printf("replayed static check of %s %s (%s) 5x: findings %v\n%s", c.Part, c.Name, c.Script, more, disasm(script))
+		r.Finish(map[string]any{"states": 1, "transitions": 1, "traces_validated_against_impl": 5}, nil)
+	}
 	o := execOpts{mark: -1}
 	if correct && decoded {
 		o.bounds = bounds
